@@ -114,6 +114,9 @@ fn write_project(p: &Project, rng: &mut Rng, identity: bool) -> Vec<String> {
   p.write("src/both.x", b"foo(a9, x);\n");
   p.write("rules/js-x.yml", br#"{"id": "only-js", "language": "JavaScript", "severity": "info", "message": "js", "rule": {"pattern": "foo($A, x)"}}"#);
   p.write("rules/ts-x.yml", br#"{"id": "only-ts", "language": "TypeScript", "severity": "info", "message": "ts", "rule": {"pattern": "foo($A, x)"}}"#);
+  // several suppression comments that silence nothing: `scan -U` removes every one of them, whatever order the map of
+  // unused suppressions hands them out in
+  p.write("src/three.js", b"// ast-grep-ignore: r3\nkeep(1);\nkeep(2); // ast-grep-ignore\n// ast-grep-ignore: r2\nkeep(3);\nbaz(4);\nkeep(5); // ast-grep-ignore: r3\n// ast-grep-ignore\nkeep(6);\n");
   p.write("src/one.js", SRC1.as_bytes());
   p.write("src/two.js", SRC2.as_bytes());
   p.write("tests/r1-test.yml", br#"{"id": "r1", "valid": ["foo(b, 1)", "foo(aXa, [x, 2, x])"], "invalid": ["foo(abc, x + 1)", "foo(aXa, x)"]}"#);
@@ -169,7 +172,8 @@ pub fn drive(seed: u64, out: &str, thorough: bool) {
     // the fixes that `scan -U` applies (several rules fix the same nodes)
     let up = run_sgv(&["scan", "-U"], &p.root, None, 60, &[]);
     let updated = json!({"exit": up.code, "one": String::from_utf8_lossy(&p.read("src/one.js")).to_string(),
-                         "two": String::from_utf8_lossy(&p.read("src/two.js")).to_string()});
+                         "two": String::from_utf8_lossy(&p.read("src/two.js")).to_string(),
+                         "three": String::from_utf8_lossy(&p.read("src/three.js")).to_string()});
     p.remove();
     json!({"id": format!("perm{perm}"), "perm": perm, "rule_files": names, "runs": runs, "snaps": snaps, "updated": updated,
       "graphs": {"utils": {"uA": ["uB"], "uB": ["uC"], "uC": [], "uD": ["uA", "uC"], "uE": ["uC", "uB"], "uF": ["uC", "uG"], "uG": ["uH"], "uH": []},
